@@ -162,9 +162,6 @@ static inline void set_leaf_expect(const PartGroup *pg)
   }
 }
 
-/*@ harness dbg_p2m enforce=KI_P2M replace=TbfParticlesContainer__getNbLeaves,TbfParticlesContainer__getLeafSpacialIndex,TbfParticlesContainer__getParticleData__c,TbfParticlesContainer__getParticleIndexes__c,TbfParticlesContainer__getNbParticlesInLeaf,TbfCellsContainer__getNbCells,TbfCellsContainer__getCellSpacialIndex,TbfCellsContainer__getCellSymbData,TbfCellsContainer__getCellMultipole loopcontracts=1 unwind=8 defs=ELIM_WF,LIGHT_WF,DBG_NOWRITE timeout=300 props=DBG */
-void h_p2m(void);
-void dbg_p2m(void) { h_p2m(); }
 /*@ harness h_p2m enforce=KI_P2M replace=TbfParticlesContainer__getNbLeaves,TbfParticlesContainer__getLeafSpacialIndex,TbfParticlesContainer__getNbParticlesInLeaf,TbfCellsContainer__getNbCells,TbfCellsContainer__getCellSpacialIndex loopcontracts=1 pre_unwind=TbfParticlesContainer__getParticleData__c.0:6 unwind=8 defs=ELIM_WF,LIGHT_WF props=C01,C02,C08,C12,C15 */
 void h_p2m(void)
 {
